@@ -110,6 +110,12 @@ def run_t1(prop, cfg, tier, seed):
     axioms, audit_problems = {}, []
     if not broken_tie and not failing:
         ok, axioms, audit_problems = audit(prop, cfg['modules'])
+        if tier == 'thorough':
+            # independent re-check of the compiled property module by Lean's external checker
+            with LakeLock():
+                rcl, outl = sh(['lake', 'env', 'leanchecker', cfg['modules'][0]], cwd=LEAN, timeout=3600)
+            notes.append('leanchecker %s: %s' % (cfg['modules'][0], 'accepted' if rcl == 0 else 'REJECTED'))
+            if rcl != 0: audit_problems.append('leanchecker rejects %s: %s' % (cfg['modules'][0], outl[-300:]))
         if audit_problems: log('audit problems:', audit_problems[:5])
     # 4. correspondence: model vs real glm (bit-exact), spec vs real glm (exact on small integers)
     corr = None
